@@ -95,7 +95,8 @@ Definition attr_block_line (head indent:str) (ib:nat * str) : str :=
 
 Definition attr_str_lines (head indent:str) (width:Z) (value:str) : res (list str) :=
   let fits := fun (t:str) => (zlen indent + zlen t <? width)%Z in
-  let value' := if negb (is_ident value) || negb (fits value) then quote_str Q2 value else value in
+  let value' := if negb (is_ident value) || eqs (lowers value) (s_ "none") || eqs (lowers value) (s_ "auto")
+                   || negb (fits value) then quote_str Q2 value else value in
   if fits value' then Ok [head ++ value']
   else
     let inner := removelast (drop 1 value') in
